@@ -117,44 +117,84 @@ func checkC01(e *Env) {
 // closureEntry: a MakeClosure whose body encodes valuePat through valueE and
 // whose map entry reaches the slice passed to EncodeMap.
 func closureEntry(key, calleePat string, argPats ...string) gate.Gate {
-	return gate.Gate{Key: key, Desc: "map entry encoding " + strings.Join(argPats, ",") + " reaches EncodeMap",
-		Instr: func(in ssa.Instruction) bool {
-			mc, ok := in.(*ssa.MakeClosure)
-			if !ok {
-				return false
-			}
-			fn, ok := mc.Fn.(*ssa.Function)
-			if !ok {
-				return false
-			}
-			found := false
-			for _, b := range fn.Blocks {
-				for _, i2 := range b.Instrs {
-					c, ok := i2.(ssa.CallInstruction)
-					if !ok || !prov.Match(calleePat, prov.CalleeName(c.Common())) {
-						continue
+	bodyMatches := func(mc *ssa.MakeClosure) bool {
+		fn, ok := mc.Fn.(*ssa.Function)
+		if !ok {
+			return false
+		}
+		for _, b := range fn.Blocks {
+			for _, i2 := range b.Instrs {
+				c, ok := i2.(ssa.CallInstruction)
+				if !ok || !prov.Match(calleePat, prov.CalleeName(c.Common())) {
+					continue
+				}
+				args := c.Common().Args
+				okArgs := len(args) >= len(argPats)
+				for k, p := range argPats {
+					if !okArgs {
+						break
 					}
-					args := c.Common().Args
-					okArgs := len(args) >= len(argPats)
-					for k, p := range argPats {
-						if !okArgs {
-							break
-						}
-						if p != "" && !prov.Match(p, prov.Of(args[k])) {
-							okArgs = false
-						}
-					}
-					if okArgs {
-						found = true
+					if p != "" && !prov.Match(p, prov.Of(args[k])) {
+						okArgs = false
 					}
 				}
+				if okArgs {
+					return true
+				}
 			}
-			if !found {
-				return false
+		}
+		return false
+	}
+	toEncodeMap := func(call ssa.CallInstruction, i int) bool {
+		return prov.CalleeName(call.Common()) == "(*cbor.Encoder).EncodeMap" && i == 1
+	}
+	return gate.Gate{Key: key, Desc: "map entry encoding " + strings.Join(argPats, ",") + " reaches EncodeMap",
+		Instr: func(in ssa.Instruction) bool {
+			switch x := in.(type) {
+			case *ssa.MakeClosure:
+				return bodyMatches(x) && flow.Reaches(x, toEncodeMap)
+			case *ssa.Call:
+				// the entry is built by a helper the rule tables do not know:
+				// helper(key, value) returns GenerateMapEntry(closure); the
+				// closure is matched with the helper's parameters standing for
+				// the arguments of this call, and the call's result must reach
+				// EncodeMap
+				fn := x.Call.StaticCallee()
+				if fn == nil || fn.Blocks == nil || prov.KnownFunction(fn) || len(x.Call.Args) != len(fn.Params) || prov.SubstDepth() > 2 {
+					return false
+				}
+				if fn.Pkg == nil || !strings.HasPrefix(fn.Pkg.Pkg.Path(), prov.ModulePrefix) {
+					return false
+				}
+				prov.PushSubst(fn, &x.Call)
+				found := false
+				for _, b := range fn.Blocks {
+					for _, i2 := range b.Instrs {
+						if mc, ok := i2.(*ssa.MakeClosure); ok && bodyMatches(mc) {
+							// the closure must be what the helper returns (through GenerateMapEntry)
+							if flow.Reaches(mc, func(call ssa.CallInstruction, i int) bool {
+								return prov.CalleeName(call.Common()) == "cbor.GenerateMapEntry" && i == 0
+							}) {
+								found = true
+							}
+						}
+					}
+				}
+				prov.PopSubst()
+				if !found {
+					return false
+				}
+				// single return of a GenerateMapEntry result
+				for _, b := range fn.Blocks {
+					if r, ok := b.Instrs[len(b.Instrs)-1].(*ssa.Return); ok {
+						if len(r.Results) != 1 || !strings.HasPrefix(prov.Of(r.Results[0]), "call:cbor.GenerateMapEntry(") {
+							return false
+						}
+					}
+				}
+				return flow.Reaches(x, toEncodeMap)
 			}
-			return flow.Reaches(mc, func(call ssa.CallInstruction, i int) bool {
-				return prov.CalleeName(call.Common()) == "(*cbor.Encoder).EncodeMap" && i == 1
-			})
+			return false
 		}}
 }
 
